@@ -19,6 +19,7 @@ use rs::sync::atomic::{AtomicU64, Ordering};
 rs::thread_local! {
     static COUNTER: RefCell<Option<rs::sync::Arc<loom::sync::atomic::AtomicUsize>>> = RefCell::new(None);
     static SCRIPT: RefCell<Vec<Option<Vec<u8>>>> = RefCell::new(Vec::new());
+    static FAILURES: rs::cell::Cell<usize> = rs::cell::Cell::new(0);
 }
 extern "C" { fn __errno_location() -> *mut i32; fn memfd_create(name: *const u8, flags: u32) -> i32; fn dup(fd: i32) -> i32; fn dup2(a: i32, b: i32) -> i32; fn ftruncate(fd: i32, len: i64) -> i32; fn lseek(fd: i32, off: i64, whence: i32) -> i64; fn pread(fd: i32, buf: *mut u8, n: usize, off: i64) -> isize; }
 /// # Safety: called through the subject's FFI declaration with a valid buffer
@@ -27,6 +28,7 @@ pub unsafe extern "C" fn getentropy(buf: *mut u8, len: usize) -> i32 {
     let ctr = COUNTER.with(|c| c.borrow().clone()); // take the handle first: the borrow must not be held across a scheduling point
     let idx = ctr.map(|a| a.fetch_add(1, loom::sync::atomic::Ordering::SeqCst)); // a scheduling point
     let ans = match idx { Some(i) => SCRIPT.with(|s| s.borrow().get(i).cloned().flatten()), None => None };
+    if ans.is_none() { FAILURES.with(|f| f.set(f.get() + 1)); }
     match ans { Some(b) => { for i in 0..len { *buf.add(i) = b[i % b.len()]; } 0 } None => { *__errno_location() = 5; -1 } }
 }
 // ---- stdout capture at file-descriptor level (println! of the subject goes to fd 1) --------------------------------
@@ -103,7 +105,7 @@ fn explore(sc: &Scenario, result_path: &str, checkpoint: &str, replay: bool) {
         SCHEDULES.fetch_add(1, Ordering::Relaxed);
         COUNTER.with(|c| *c.borrow_mut() = Some(rs::sync::Arc::new(loom::sync::atomic::AtomicUsize::new(0))));
         SCRIPT.with(|s| *s.borrow_mut() = p2.script.clone());
-        std::sync::mpsc::SEND_LOG.with(|l| l.borrow_mut().clear());
+        std::sync::mpsc::SEND_LOG.with(|l| l.borrow_mut().clear()); FAILURES.with(|f| f.set(0));
         std::sync::mpsc::SEND_HOOK.with(|h| h.set(Some(|m: &dyn rs::any::Any| m.downcast_ref::<anyhow::Result<hdwallet::mnemonic::Mnemonic>>().map(|r| match r { Ok(m) => format!("ok:{m}"), Err(_) => "err".to_string() }))));
         let r = cmd::new::run(options(&sc2));
         let out = capture_take();
@@ -117,6 +119,9 @@ fn explore(sc: &Scenario, result_path: &str, checkpoint: &str, replay: bool) {
         let outcome = if outcome.starts_with("VIOLATION") { outcome } else { match (&first, &r) {
             (Some(f), Ok(())) if f.starts_with("ok:") && format!("{}\n", &f[3..]) == out => outcome,
             (Some(f), Err(_)) if f == "err" => outcome,
+            // an error although the first finisher had a match: conforming as long as some failure really happened before
+            // (a stricter "any reported failure is fatal" policy satisfies C12 and C18 alike)
+            (Some(_), Err(_)) if FAILURES.with(|f| f.get()) > 0 || std::sync::mpsc::SEND_LOG.with(|l| l.borrow().iter().any(|m| m == "err")) => outcome,
             (None, _) => outcome, // nothing was sent: the search ended before any worker finished (failure in the main thread)
             (Some(f), _) => format!("VIOLATION the first worker to finish sent {:?} but the command {}", if f == "err" { "an error".to_string() } else { format!("the phrase '{}'", &f[3..]) }, if r.is_ok() { format!("printed {:?}", out) } else { "failed".to_string() }),
         } };
